@@ -101,6 +101,11 @@ def check_trunc(ctx, S, R="C02-TRUNC"):
                 # k must be the parameter itself (or its documented None fall-back), not k+1 etc.
                 leaves = A.strip_ifexp(s.upper)
                 exact = any(canon(l) == limit for l in leaves)
+                # the documented None fall-back: every evaluated sample may be kept
+                fb_ok = {canon(parse("len(prior_samples_batch)")), "n_prior_samples", canon(parse("tb.open_file(prior_samples_file, mode='r').root[JokerSamples._hdf5_path].shape[0]"))}
+                others = [l for l in leaves if canon(l) != limit]
+                ctx.check(R, c, "%s: without a limit every accepted sample is kept" % q, all(canon(l) in fb_ok for l in others),
+                          "when %s is None the prefix length falls back to `%s`, which can drop accepted samples" % (limit, [A.unparse(l)[:40] for l in others]), key=q + ":fallback", nontrivial=False)
                 ctx.check(R, c, "%s: truncated to exactly %s" % (q, limit), exact,
                           "prefix length `%s` is not %s itself" % (A.unparse(s.upper)[:60], limit), key=q + ":k")
                 have_limit = have_limit or exact
@@ -237,6 +242,35 @@ def check_nprior(ctx):
     ctx.check(R, H, "likelihoods concatenated in task order", okc, "marginal_ln_likelihood_helper does not return np.concatenate(results)", key="concat")
 
 
+def check_api(ctx):
+    R = "C02-API"
+    ctx.rule(R, "the public method forwards every option it accepts to the helper that implements it, under the same name (max_posterior_samples, n_prior_samples, "
+                "n_linear_samples, return_logprobs, return_all_logprobs, n_batches, randomize_prior_order; rng = self.rng, pool = self.pool), and the helpers forward "
+                "n_linear_samples / n_batches to make_full_samples*.")
+    TJ = "thejoker.thejoker"
+    fn = ctx.prog.func(TJ, "TheJoker.rejection_sample", R)
+    table = [("rejection_sample_inmem", ["max_posterior_samples", "n_linear_samples", "return_all_logprobs"]),
+             ("rejection_sample_helper", ["n_prior_samples", "max_posterior_samples", "n_linear_samples", "return_logprobs", "n_batches", "randomize_prior_order", "return_all_logprobs"])]
+    for callee, names in table:
+        gaps = A.forwarding_gaps(fn, callee, names)
+        ctx.check(R, fn, "rejection_sample calls %s once" % callee, len(gaps) == 1, "found %d calls" % len(gaps), key="call:" + callee, nontrivial=False)
+        for c, missing, wrong in gaps:
+            ctx.check(R, c, "rejection_sample forwards its options to %s" % callee, not missing and not wrong,
+                      "not forwarded: %s; forwarded as something else: %s (the option silently keeps its default)" % (missing, {k: A.unparse(v) for k, v in wrong.items()}), key="fw:" + callee)
+            for kw, want in (("rng", "self.rng"),) + ((("pool", "self.pool"),) if callee.endswith("helper") else ()):
+                v = A.get_arg(c, None, kw)
+                ctx.check(R, c, "%s gets %s=%s" % (callee, kw, want), v is not None and canon(v) == want, "%s=%s" % (kw, A.unparse(v) if v is not None else "missing"), key="fw:%s:%s" % (callee, kw), nontrivial=False)
+    for mod, q, callee, names in ((_rej.LH, "rejection_sample_inmem", "make_full_samples_inmem", ["n_linear_samples"]), (_rej.MP, "rejection_sample_helper", "make_full_samples", ["n_linear_samples", "n_batches"]),
+                                  (_rej.LH, "iterative_rejection_inmem", "make_full_samples_inmem", ["n_linear_samples"]), (_rej.MP, "iterative_rejection_helper", "make_full_samples", ["n_linear_samples", "n_batches"])):
+        f = ctx.prog.func(mod, q, R)
+        for c, missing, wrong in A.forwarding_gaps(f, callee, names):
+            ctx.check(R, c, "%s forwards %s to %s" % (q, names, callee), not missing and not wrong, "not forwarded: %s %s" % (missing, {k: A.unparse(v) for k, v in wrong.items()}), key="fw:%s:%s" % (q, callee))
+    for mod, q, callee, names in ((_rej.MP, "make_full_samples", "run_worker", ["n_batches", "samples_idx", "rng"]), (_rej.MP, "marginal_ln_likelihood_helper", "run_worker", ["n_batches", "samples_idx", "n_prior_samples"])):
+        f = ctx.prog.func(mod, q, R)
+        for c, missing, wrong in A.forwarding_gaps(f, callee, names):
+            ctx.check(R, c, "%s forwards %s to run_worker" % (q, names), not missing and not wrong, "not forwarded: %s %s" % (missing, {k: A.unparse(v) for k, v in wrong.items()}), key="fw:%s:run_worker" % q)
+
+
 def run(ctx):
     ctx.rule("C02-ACC", "at each of the four rejection sites the accepted index is np.where(mask)[0] with mask == exp(L - max(L)) > U (strict; or its "
                         "mirror / log form), max over the same whole evaluated array L without extra arguments, U = rng.uniform(size=len(L)) with default "
@@ -265,4 +299,5 @@ def run(ctx):
                       "acceptance form %s differs from the siblings' %s" % (s, common), key=name)
     check_copy(ctx, sites)
     check_nprior(ctx)
+    check_api(ctx)
     ctx.assume("np.where(mask)[0] returns the ascending positions of True; Generator.uniform(size=n) returns n iid U[0,1) values; fancy indexing copies rows unchanged")
